@@ -10,10 +10,14 @@ EXTENDS MSCodec, Json
 
 CONSTANT MaxLen
 
-Alphabet == {QUOTE, BSL, SP, TAB, LF, CR, "\f", "n", "r", "t", "é", NBSP}     \* "\f": a whitespace character no writer escapes
+Alphabet == {QUOTE, BSL, SP, TAB, LF, CR, "\f", "n", "r", "t", "é", NBSP, ";"}     \* "\f": a whitespace character no writer escapes; ";": comment character of assemblers
+
+(* long arguments with one multi-byte character at every offset around the width of a terminal-style preview / buffer *)
+Fill(k) == [i \in 1..k |-> "a"]
+LongBodies == {Fill(k) \o <<"é", "z", "z">> : k \in 16..52} \cup {Fill(k) \o <<"日", "z">> : k \in 24..34}
 
 VARIABLE t
-Init == t = <<>>
+Init == t = <<>> \/ t \in LongBodies
 Next == Len(t) < MaxLen /\ \E c \in Alphabet : t' = Append(t, c)
 
 Cut(i, j) == <<SubSeq(t, 1, i), SubSeq(t, i + 1, j), SubSeq(t, j + 1, Len(t))>>
